@@ -121,9 +121,19 @@ def gen_cases(ctx):
             items = P.gen_items(rng, int(rng.integers(nw + 1, 2 * nw + 4)), keys, sleep=True)
             yield {"type": "spawned", "items": items, "n_workers": nw, "combo": list(combo), "args": P.gen_args(rng, combo, "linear"),
                    "as_generator": gen, "timeout": 300 if q else 900, "item_kind": ["bytes", "int", "dict", "str", "tuple"][j % 5]}
-    # --- exhaustive schedules
-    bounds = [(3, 2), (4, 3)] if q else [(4, 3), (5, 3), (6, 4)]
-    for (n_items, n_workers) in bounds:
+    def random_runs(n_rand, j0=0):
+        # all seven combinations, worker counts 1..9, random schedules, list and generator
+        for j in range(j0, j0 + n_rand):
+            combo = P.COMBOS[j % 7]
+            nw = 1 + (j // 7) % 9
+            n_items = int(rng.integers(0 if j % 50 == 49 else 1, 9))
+            sched = {w: [] for w in range(nw)}
+            order = rng.permutation(n_items).tolist()
+            for i in order:
+                sched[int(rng.integers(0, nw))].append(i)
+            yield make_case(rng, n_items, nw, combo, sched, gen=bool(rng.random() < 0.3))
+
+    def exhaustive(n_items, n_workers):
         scheds = fakectx.all_schedules(n_items, n_workers)
         if not q:
             scheds = itertools.islice(scheds, sh, None, ns)
@@ -135,17 +145,18 @@ def gen_cases(ctx):
             yield {"type": "inproc", "items": items, "n_workers": n_workers, "combo": list(COMBO_ALL), "args": args,
                    "schedule": {str(w): v for w, v in sched.items()}, "as_generator": bool(k % 7 == 3), "exhaustive": [n_items, n_workers],
                    "item_kind": P.ITEM_KINDS[k % len(P.ITEM_KINDS)]}
-    # --- all seven combinations, worker counts 1..9, random schedules, list and generator
-    n_rand = 260 if q else 10**9
-    for j in range(n_rand):
-        combo = P.COMBOS[j % 7]
-        nw = 1 + (j // 7) % 9
-        n_items = int(rng.integers(0 if j % 50 == 49 else 1, 9))
-        sched = {w: [] for w in range(nw)}
-        order = rng.permutation(n_items).tolist()
-        for i in order:
-            sched[int(rng.integers(0, nw))].append(i)
-        yield make_case(rng, n_items, nw, combo, sched, gen=bool(rng.random() < 0.3))
+
+    if q:
+        yield from exhaustive(3, 2)
+        yield from exhaustive(4, 3)
+        yield from random_runs(260)
+        return
+    # thorough: breadth first (every combination and worker count on every shard), then the exhaustive bounds as time permits
+    yield from random_runs(189)
+    yield from exhaustive(4, 3)
+    yield from exhaustive(5, 3)
+    yield from exhaustive(6, 4)
+    yield from random_runs(10**9, 189)
 
 
 COMBO_ALL = ("cms", "hh", "hll")
